@@ -813,6 +813,13 @@ func (se *SessionExecutor) executeMultipleSQLInSlice(requestContext *util.Reques
 			// 1) 为当前这条 SQL 新开一个协程（go routine）去执行
 			go func(sql string, begin time.Time) {
 				queryResult, execErr := se.executeSingleSQLInSlice(pooledConn, currentSliceName, dbName, sql)
+				// a merge needs the whole result: read on while the reader stopped at the 16 MiB threshold
+				for execErr == nil && queryResult != nil && queryResult.Resultset != nil && pooledConn.MoreRowsExist() {
+					execErr = pooledConn.FetchMoreRows(queryResult, se.GetNamespace().GetMaxResultSize())
+				}
+				if execErr != nil {
+					queryResult = nil
+				}
 				execResultChan <- executeResult{
 					result: queryResult,
 					err:    execErr,
